@@ -2172,8 +2172,10 @@ CaseX86PushPop_Gp:
                             o1.as<Mem>().base_and_index_types()))
           goto InvalidInstruction;
 
-        rm_rel = &o1;
-        if (ASMJIT_UNLIKELY(o0.as<Mem>().has_offset()))
+        // MOVS copies [DS:zSI] (second operand) to [ES:zDI], CMPS compares [DS:zSI] (first operand) with [ES:zDI].
+        // Only the DS:[zSI] operand can carry a segment override, so that's the one that selects the prefixes.
+        rm_rel = (inst_id == Inst::kIdCmps) ? &o0 : &o1;
+        if (ASMJIT_UNLIKELY(((inst_id == Inst::kIdCmps) ? o1 : o0).as<Mem>().has_offset()))
           goto InvalidInstruction;
 
         uint32_t size = o1.x86_rm_size();
